@@ -106,11 +106,16 @@ struct Fail {
     detail: String,
 }
 
+/// position of the byte in which the identifiers of one history differ (set per history from its seed): a key
+/// comparison that looks at part of an identifier only must not go unnoticed
+static ID_POS: std::sync::atomic::AtomicUsize = std::sync::atomic::AtomicUsize::new(0);
+
 fn h20(tag: u8, i: usize) -> [u8; 20] {
     let mut a = [tag; 20];
-    a[0] = i as u8; // first byte decides the swarm worker in the live tracker
-    a[1] = (i >> 8) as u8;
+    let pos = ID_POS.load(std::sync::atomic::Ordering::Relaxed) % 19;
     a[19] = tag ^ 0x5a;
+    a[pos] = i as u8;
+    a[(pos + 1) % 19] = (i >> 8) as u8;
     a
 }
 
@@ -153,6 +158,7 @@ fn run_history(h: &History, shape: &mut Shape) -> Result<u64, Fail> {
 }
 
 fn run_history_inner(h: &History, shape: &mut Shape) -> Result<u64, Fail> {
+    ID_POS.store((h.rng_seed % 19) as usize, std::sync::atomic::Ordering::Relaxed);
     let mut config = Config::default();
     config.protocol.max_offers = h.max_offers;
     config.protocol.max_scrape_torrents = h.max_scrape_torrents;
